@@ -40,12 +40,18 @@ def _run(present, fails, tags, all_tags):
         i = OPS.index((path, method))
         if fails[i]:
             return ParseError(detail=f"bad op{i}"), schemas, parameters
-        return Endpoint(path=path, method=method, description=None, name=f"op{i}", requires_security=False, tags=tags), schemas, parameters
+        # a successful operation registers something (an inline model) in the Schemas it hands back
+        grown = Schemas(classes_by_reference=dict(schemas.classes_by_reference), classes_by_name={**schemas.classes_by_name, f"Op{i}Inline": object()}, errors=list(schemas.errors))
+        return Endpoint(path=path, method=method, description=None, name=f"op{i}", requires_security=False, tags=tags), grown, parameters
 
     cfg = CFG_ALL if all_tags else CFG_FIRST
     with mock.patch.object(Endpoint, "from_data", staticmethod(stub)):
-        colls, _, _ = EndpointCollection.from_data(data=paths, schemas=Schemas(), parameters=Parameters(), request_bodies={}, responses={}, config=cfg)
+        colls, out_schemas, _ = EndpointCollection.from_data(data=paths, schemas=Schemas(), parameters=Parameters(), request_bodies={}, responses={}, config=cfg)
+    _LAST["schemas"] = out_schemas
     return colls
+
+
+_LAST: dict = {}
 
 
 def _expected_tags(i, tags, all_tags):
@@ -72,6 +78,10 @@ def _accounting(present, fails, tags, all_tags) -> bool:
         for t in exp:
             if t not in [str(k) for k in colls]:
                 return False
+    # what the successful operations registered survives, whatever failed next to them (same path or not)
+    for i in range(3):
+        if present[i] and not fails[i] and f"Op{i}Inline" not in _LAST["schemas"].classes_by_name:
+            return False
     # generate_all_tags: the very same endpoint object under every tag
     if all_tags:
         for i in range(3):
@@ -85,7 +95,7 @@ def _accounting(present, fails, tags, all_tags) -> bool:
 
 def accounting_tags(f0: bool, f1: bool, f2: bool, t0: int, t1: int, all_tags: bool) -> bool:
     """
-    pre: 0 <= t0 < 5 and 1 <= t1 < 5
+    pre: 0 <= t0 < 5 and 2 <= t1 < 5
     post: _
     """
     return _accounting([True, True, True], [f0, f1, f2], [t0, t1, 2], all_tags)
